@@ -440,6 +440,7 @@ def main(mod) -> int:
         sys.stderr.write("\n".join(proof.errors) + "\n")
     model = Model(mod.MODEL_NAME) if getattr(mod, "MODEL_NAME", None) else None
     ctx.model = model
+    ctx.proof_ok = bool(proof.ok)      # a harness may search harder for a failing input when an obligation broke
     try:
         mod.run(ctx)
     except Exception:  # a crash of the harness is a broken check, never silently green
